@@ -11,6 +11,8 @@ Lemma sfx_zero_true : sfx_zero = true.
 Proof. reflexivity. Qed.
 Lemma sfx_retry_true : sfx_retry = true.
 Proof. reflexivity. Qed.
+Lemma names_shared_dest_true : names_shared_dest = true.
+Proof. reflexivity. Qed.
 Lemma split_zero_true : split_zero = true.
 Proof. reflexivity. Qed.
 Lemma slash_not_kept : keep_char slash = false.
@@ -165,50 +167,90 @@ Section Loop.
   Variable excl incl : list str.
   Variable t_ord v_ord : option ordering.
 
-  Lemma group_loop_names : forall groups d gen out_idx gidx files e,
-    group_loop a i excl incl t_ord v_ord d gen out_idx gidx groups = (files, e) ->
+  Lemma group_loop_names : forall groups d gen out_idx gidx files e gen',
+    group_loop a i excl incl t_ord v_ord d gen out_idx gidx groups = (files, e, gen') ->
     exists outs, map fo_name files = map (fun o => o ++ a_output_ext a) outs /\ NoDup outs /\
                  (forall o, In o outs -> ~ In o gen) /\
-                 (e = None -> length files = length groups).
+                 (e = None -> length files = length groups) /\
+                 (forall o, In o gen -> In o gen') /\ (forall o, In o outs -> In o gen').
   Proof.
-    induction groups as [|gi rest IH]; intros d gen out_idx gidx files e H; cbn [group_loop] in H.
-    - injection H as <- <-. exists []. repeat split; [constructor | intros o []].
-    - destruct (i_stack i _) as [u|er]; [|injection H as <- <-; exists []; repeat split; [constructor | intros o [] | discriminate]].
-      destruct (natural_name a gi) as [nn|er]; [|injection H as <- <-; exists []; repeat split; [constructor | intros o [] | discriminate]].
+    induction groups as [|gi rest IH]; intros d gen out_idx gidx files e gen' H; cbn [group_loop] in H.
+    - injection H as <- <- <-. exists []. repeat split; [constructor | intros o [] | intros o Ho; exact Ho | intros o []].
+    - assert (Hstop : forall er g0, ([] : list file_out, Some er, g0) = (files, e, gen') -> (forall o, In o gen -> In o g0) ->
+                exists outs, map fo_name files = map (fun o => o ++ a_output_ext a) outs /\ NoDup outs /\
+                  (forall o, In o outs -> ~ In o gen) /\ (e = None -> length files = length (gi :: rest)) /\
+                  (forall o, In o gen -> In o gen') /\ (forall o, In o outs -> In o gen')).
+      { intros er g0 H0 Hg. injection H0 as <- <- <-. exists [].
+        repeat split; [constructor | intros o [] | discriminate | exact Hg | intros o []]. }
+      destruct (i_stack i _) as [u|er]; [|exact (Hstop _ _ H (fun o Ho => Ho))].
+      destruct (natural_name a gi) as [nn|er]; [|exact (Hstop _ _ H (fun o Ho => Ho))].
       destruct (unique_name_ok gen out_idx (sanitize_path_comp nn)) as [out [H1 [H2 _]]]. rewrite H1 in H.
-      destruct (i_nifti i _ _) as [u'|er]; [|injection H as <- <-; exists []; repeat split; [constructor | intros o [] | discriminate]].
-      destruct (if a_dump_meta a then _ else _) as [jp|er]; [|injection H as <- <-; exists []; repeat split; [constructor | intros o [] | discriminate]].
-      destruct (group_loop a i excl incl t_ord v_ord d (out :: gen) (S out_idx) (S gidx) rest) as [fs e'] eqn:E.
-      injection H as <- <-.
-      destruct (IH _ _ _ _ _ _ E) as [outs [Hm [Hnd [Hfresh Hlen]]]].
+      destruct (i_nifti i _ _) as [u'|er]; [|exact (Hstop _ _ H (fun o Ho => or_intror Ho))].
+      destruct (if a_dump_meta a then _ else _) as [jp|er]; [|exact (Hstop _ _ H (fun o Ho => or_intror Ho))].
+      destruct (group_loop a i excl incl t_ord v_ord d (out :: gen) (S out_idx) (S gidx) rest) as [[fs e'] g1] eqn:E.
+      injection H as <- <- <-.
+      destruct (IH _ _ _ _ _ _ _ E) as [outs [Hm [Hnd [Hfresh [Hlen [Hmono Hin]]]]]].
       exists (out :: outs). cbn [map fo_name]. repeat split.
       + rewrite Hm. reflexivity.
-      + constructor; [|exact Hnd]. intros Hin. apply (Hfresh _ Hin). left. reflexivity.
+      + constructor; [|exact Hnd]. intros Ho. apply (Hfresh _ Ho). left. reflexivity.
       + intros o [Ho | Ho]; [subst o; exact H2|]. intros Hg. apply (Hfresh _ Ho). right. exact Hg.
       + intros He. cbn [length]. rewrite (Hlen He). reflexivity.
+      + intros o Ho. apply Hmono. right. exact Ho.
+      + intros o [Ho | Ho]; [subst o; apply Hmono; left; reflexivity | exact (Hin _ Ho)].
   Qed.
 
-  Lemma group_loop_names_distinct groups d files e :
-    group_loop a i excl incl t_ord v_ord d [] 0 0 groups = (files, e) -> NoDup (map fo_name files).
+  Lemma group_loop_names_distinct groups d gen files e gen' :
+    group_loop a i excl incl t_ord v_ord d gen 0 0 groups = (files, e, gen') -> NoDup (map fo_name files).
   Proof.
-    intros H. destruct (group_loop_names _ _ _ _ _ _ _ H) as [outs [Hm [Hnd _]]]. rewrite Hm.
+    intros H. destruct (group_loop_names _ _ _ _ _ _ _ _ H) as [outs [Hm [Hnd _]]]. rewrite Hm.
     apply NoDup_map_inj; [|exact Hnd]. intros x y _ _ Hxy. exact (app_inv_tail _ _ _ Hxy).
   Qed.
 
-  Lemma dir_loop_names : forall dirs group_by x ds e,
-    dir_loop a i excl incl t_ord v_ord group_by x dirs = (ds, e) ->
+  Lemma dir_loop_names : forall dirs group_by x shared ds e,
+    dir_loop a i excl incl t_ord v_ord group_by x shared dirs = (ds, e) ->
     forall d, In d ds -> NoDup (map fo_name (do_files d)).
   Proof.
-    induction dirs as [|d0 rest IH]; intros group_by x ds e H d Hd; cbn [dir_loop] in H.
+    induction dirs as [|d0 rest IH]; intros group_by x shared ds e H d Hd; cbn [dir_loop] in H.
     - injection H as <- <-. destruct Hd.
     - destruct (i_groups i _) as [groups|er]; [|injection H as <- <-; destruct Hd].
-      destruct (group_loop a i excl incl t_ord v_ord d0 [] 0 0 groups) as [files e0] eqn:E.
+      destruct (group_loop a i excl incl t_ord v_ord d0 _ 0 0 groups) as [[files e0] g1] eqn:E.
       destruct e0 as [er|].
-      + injection H as <- <-. destruct Hd as [<- | []]. cbn [do_files]. exact (group_loop_names_distinct _ _ _ _ E).
-      + destruct (dir_loop a i excl incl t_ord v_ord group_by x rest) as [ds' e'] eqn:E'.
+      + injection H as <- <-. destruct Hd as [<- | []]. cbn [do_files]. exact (group_loop_names_distinct _ _ _ _ _ _ E).
+      + destruct (dir_loop a i excl incl t_ord v_ord group_by x _ rest) as [ds' e'] eqn:E'.
         injection H as <- <-. destruct Hd as [<- | Hd].
-        * cbn [do_files]. exact (group_loop_names_distinct _ _ _ _ E).
-        * exact (IH _ _ _ _ E' d Hd).
+        * cbn [do_files]. exact (group_loop_names_distinct _ _ _ _ _ _ E).
+        * exact (IH _ _ _ _ _ E' d Hd).
+  Qed.
+
+  Lemma NoDup_app_disjoint {A} (l1 l2 : list A) :
+    NoDup l1 -> NoDup l2 -> (forall x, In x l1 -> ~ In x l2) -> NoDup (l1 ++ l2).
+  Proof.
+    intros H1 H2 Hd. induction H1 as [|x l Hx Hnd IH]; cbn [app]; [exact H2|].
+    constructor.
+    - intros Hin. apply in_app_or in Hin as [Hin | Hin]; [contradiction | exact (Hd x (or_introl eq_refl) Hin)].
+    - apply IH. intros y Hy. apply Hd. right. exact Hy.
+  Qed.
+
+  (** one set of names for the whole invocation (--dest-dir): the names of ALL directories are distinct *)
+  Lemma dir_loop_names_shared : shares_names a = true -> forall dirs group_by x shared ds e,
+    dir_loop a i excl incl t_ord v_ord group_by x shared dirs = (ds, e) ->
+    exists outs, concat (map (fun d => map fo_name (do_files d)) ds) = map (fun o => o ++ a_output_ext a) outs /\
+                 NoDup outs /\ (forall o, In o outs -> ~ In o shared).
+  Proof.
+    intros Hsh. induction dirs as [|d0 rest IH]; intros group_by x shared ds e H; cbn [dir_loop] in H.
+    - injection H as <- <-. exists []. repeat split; [constructor | intros o []].
+    - destruct (i_groups i _) as [groups|er]; [|injection H as <- <-; exists []; repeat split; [constructor | intros o []]].
+      rewrite Hsh in H.
+      destruct (group_loop a i excl incl t_ord v_ord d0 shared 0 0 groups) as [[files e0] g1] eqn:E.
+      destruct (group_loop_names _ _ _ _ _ _ _ _ E) as [outs1 [Hm1 [Hnd1 [Hf1 [_ [Hmono Hin1]]]]]].
+      destruct e0 as [er|].
+      + injection H as <- <-. exists outs1. cbn [map concat do_files]. rewrite app_nil_r. repeat split; assumption.
+      + destruct (dir_loop a i excl incl t_ord v_ord group_by x g1 rest) as [ds' e'] eqn:E'.
+        injection H as <- <-. destruct (IH _ _ _ _ _ E') as [outs2 [Hm2 [Hnd2 Hf2]]].
+        exists (outs1 ++ outs2). cbn [map concat do_files]. rewrite Hm1, Hm2, map_app. repeat split.
+        * apply NoDup_app_disjoint; [exact Hnd1 | exact Hnd2|]. intros o Ho1 Ho2. exact (Hf2 _ Ho2 (Hin1 _ Ho1)).
+        * intros o Ho. apply in_app_or in Ho as [Ho | Ho]; [exact (Hf1 _ Ho)|].
+          intros Hs. exact (Hf2 _ Ho (Hmono _ Hs)).
   Qed.
 End Loop.
 
